@@ -8,10 +8,7 @@ import (
 	"math/big"
 
 	"github.com/nspcc-dev/neo-go/pkg/crypto/keys"
-	"github.com/nspcc-dev/neo-go/pkg/io"
-	"github.com/nspcc-dev/neo-go/pkg/smartcontract/callflag"
 	"github.com/nspcc-dev/neo-go/pkg/util"
-	"github.com/nspcc-dev/neo-go/pkg/vm/emit"
 
 	"verif/harness/internal/hx"
 )
@@ -44,16 +41,11 @@ func (w *world) setup(o *hx.Out, k int) {
 	if w.nopay != np.Hash {
 		panic("nopay contract hash")
 	}
-	// designate the notary node (committee = standby committee at this height)
-	bw := io.NewBufBinWriter()
-	var nks []any
-	for _, nk := range w.notaryAll {
-		nks = append(nks, nk.PublicKey().Bytes())
-	}
-	emit.AppCall(bw.BinWriter, w.desigH, "designateAsRole", callflag.All, int64(32), nks)
+	// designate the notary nodes (committee = standby committee at this height): a modelled call, the model keeps
+	// the designation and rewards its nodes
 	com := w.committeeSigner()
 	w.signer[com.ScriptHash()] = com
-	specs = append(specs, w.rawSpec(bw.Bytes(), 2*gasUnit, val, com.ScriptHash()))
+	specs = append(specs, &txSpec{calls: []*call{{kind: kDesignate, nodes: w.notaryAll}}, signers: []util.Uint160{val, com.ScriptHash()}, sysFee: 3 * gasUnit})
 	w.runBlock(o, k, specs)
 	w.notaryFrom = w.bc.BlockHeight() + 1
 
@@ -545,7 +537,27 @@ func (g *genCtx) genTx() *txSpec {
 			signers = append(signers, com.ScriptHash())
 		}
 		var c *call
-		switch r.Weighted([]int{3, 3, 5, 3}) {
+		switch r.Weighted([]int{3, 3, 5, 3, 2}) {
+		case 4:
+			// a new designation of notary nodes: a sub-list that keeps the node that signs for the service, in any
+			// order; now and then the empty list or a duplicate (refused)
+			nodes := []*keys.PrivateKey{w.notaryKey}
+			for _, nk := range w.notaryAll {
+				if nk != w.notaryKey && r.Bool() {
+					nodes = append(nodes, nk)
+				}
+			}
+			for i := len(nodes) - 1; i > 0; i-- {
+				j := r.Intn(i + 1)
+				nodes[i], nodes[j] = nodes[j], nodes[i]
+			}
+			switch r.Intn(8) {
+			case 0:
+				nodes = nil
+			case 1:
+				nodes = append(nodes, nodes[0])
+			}
+			c = &call{kind: kDesignate, nodes: nodes}
 		case 0:
 			vals := []int64{0, 1 * gasUnit, 3 * gasUnit, 5 * gasUnit, 10 * gasUnit, 10*gasUnit + 1, -1, 123456789}
 			c = &call{kind: kSetGpb, amt: big.NewInt(vals[r.Intn(len(vals))])}
@@ -581,6 +593,51 @@ func (g *genCtx) genTx() *txSpec {
 		c := g.genCall(signers, nil, 0)
 		s.calls = append(s.calls, c)
 		sys += callFee(c)
+	}
+	// class "a voting account's balance goes to exactly zero and back": a signer that votes sends away its ENTIRE
+	// NEO balance in one transfer or split over several, now and then gets it back in the same transaction and
+	// votes again
+	if r.Chance(1, 7) {
+		for _, h := range signers {
+			a := g.st.neo[h]
+			if a == nil || a.vote == nil || a.bal.Sign() <= 0 {
+				continue
+			}
+			to := w.users[r.Intn(len(w.users))].ScriptHash()
+			if len(signers) > 1 && signers[1] != h {
+				to = signers[1]
+			}
+			if to == h {
+				break
+			}
+			var extra []*call
+			if a.bal.Cmp(big.NewInt(2)) > 0 && r.Bool() {
+				p1 := new(big.Int).Div(a.bal, big.NewInt(int64(2+r.Intn(3))))
+				p2 := new(big.Int).Sub(a.bal, p1)
+				extra = append(extra, xferNeo(h, to, p1), xferNeo(h, to, p2))
+				w.emptied = "several"
+			} else {
+				extra = append(extra, xferNeo(h, to, new(big.Int).Set(a.bal)))
+				w.emptied = "one"
+			}
+			if to == signers[len(signers)-1] && len(signers) > 1 && r.Bool() {
+				extra = append(extra, xferNeo(to, h, new(big.Int).Set(a.bal)), vote(h, a.vote))
+				w.emptied += "+back"
+			}
+			// only when nothing else in this transaction moves this account's NEO
+			clean := true
+			for _, c := range s.calls {
+				clean = clean && !(c.kind == kTransfer && c.neo) && c.kind != kVote && c.nested == nil && c.via == nil
+			}
+			if clean {
+				s.calls = append(s.calls, extra...)
+				for _, c := range extra {
+					sys += callFee(c)
+				}
+				s.emptied = w.emptied
+			}
+			break
+		}
 	}
 	s.sysFee = sys
 	need := sys + 2*gasUnit
@@ -622,6 +679,10 @@ func (g *genCtx) genTx() *txSpec {
 		w.bc.BlockHeight()+1 >= w.notaryFrom && r.Chance(1, 12) {
 		s.attr = true
 		s.nkeys = uint8(r.Range(0, 4))
+		if b := g.gasOf(signers[0]); r.Chance(1, 8) && b.IsInt64() && b.Int64()-g.spent[signers[0]] >= 40*gasUnit {
+			s.nkeys = 255 // the end of the uint8 range: 256 fee units (25.6 GAS of network fee)
+			g.spent[signers[0]] += 30 * gasUnit
+		}
 	}
 	return s
 }
@@ -684,6 +745,9 @@ func (w *world) randomBlock(o *hx.Out, k int) {
 			specs = append(specs, s)
 			if s.attr {
 				o.Count("tx:notary-attribute-ordinary-sender")
+				if s.nkeys == 255 {
+					o.Count("tx:notary-attribute-nkeys-255")
+				}
 			}
 		} else {
 			o.Count("tx:skipped-no-payer")
